@@ -39,7 +39,7 @@ pub fn c17_complement_n3_t2() {
 }
 
 // AdjacencyList::complement on every digraph of order 3 with exactly 4 available CPU(s) equals the single-threaded definition.
-// @verif prop=C17 tier=thorough fl=f2 role=complement/t4 t=3600 mem=30 par=4
+// @verif prop=C17 tier=exp fl=f2 role=complement/t4 t=3600 mem=30 par=4
 #[cfg_attr(kani, kani::proof)]
 #[cfg_attr(kani, kani::unwind(8))]
 pub fn c17_complement_n3_t4() {
@@ -47,7 +47,7 @@ pub fn c17_complement_n3_t4() {
 }
 
 // AdjacencyList::complement on every digraph of order 3 with exactly 3 available CPU(s) equals the single-threaded definition.
-// @verif prop=C17 tier=thorough fl=f2 role=complement/t3 t=3600 mem=30 par=3
+// @verif prop=C17 tier=exp fl=f2 role=complement/t3 t=3600 mem=30 par=3
 #[cfg_attr(kani, kani::proof)]
 #[cfg_attr(kani, kani::unwind(8))]
 pub fn c17_complement_n3_t3() {
@@ -79,7 +79,7 @@ pub fn c17_degree_sequence_n3_t4() {
 }
 
 // AdjacencyList::degree_sequence (and the other queries) on every digraph of order 3 with exactly 1 CPU(s).
-// @verif prop=C17 tier=thorough fl=f2 role=degree-sequence/t1 t=3600 mem=30 par=1
+// @verif prop=C17 tier=thorough fl=f2 role=degree-sequence/t1 t=3600 mem=16 par=1
 #[cfg_attr(kani, kani::proof)]
 #[cfg_attr(kani, kani::unwind(8))]
 pub fn c17_degree_sequence_n3_t1() {
@@ -87,7 +87,7 @@ pub fn c17_degree_sequence_n3_t1() {
 }
 
 // AdjacencyList::degree_sequence (and the other queries) on every digraph of order 3 with exactly 3 CPU(s).
-// @verif prop=C17 tier=thorough fl=f2 role=degree-sequence/t3 t=3600 mem=30 par=3
+// @verif prop=C17 tier=thorough fl=f2 role=degree-sequence/t3 t=3600 mem=16 par=3
 #[cfg_attr(kani, kani::proof)]
 #[cfg_attr(kani, kani::unwind(8))]
 pub fn c17_degree_sequence_n3_t3() {
@@ -119,7 +119,7 @@ pub fn c17_is_semicomplete_n3_t4() {
 }
 
 // AdjacencyList::is_semicomplete (and the other predicates) on every digraph of order 3 with exactly 1 CPU(s).
-// @verif prop=C17 tier=thorough fl=f2 role=is-semicomplete/t1 t=3600 mem=30 par=1
+// @verif prop=C17 tier=thorough fl=f2 role=is-semicomplete/t1 t=3600 mem=16 par=1
 #[cfg_attr(kani, kani::proof)]
 #[cfg_attr(kani, kani::unwind(8))]
 pub fn c17_is_semicomplete_n3_t1() {
@@ -127,7 +127,7 @@ pub fn c17_is_semicomplete_n3_t1() {
 }
 
 // AdjacencyList::is_semicomplete (and the other predicates) on every digraph of order 3 with exactly 3 CPU(s).
-// @verif prop=C17 tier=thorough fl=f2 role=is-semicomplete/t3 t=3600 mem=30 par=3
+// @verif prop=C17 tier=thorough fl=f2 role=is-semicomplete/t3 t=3600 mem=16 par=3
 #[cfg_attr(kani, kani::proof)]
 #[cfg_attr(kani, kani::unwind(8))]
 pub fn c17_is_semicomplete_n3_t3() {
@@ -311,7 +311,7 @@ pub fn c17_map_tournament_n3_t2() {
 }
 
 // AdjacencyMap::erdos_renyi(3, every p, every seed) stays a simple digraph with exactly 2 CPU(s).
-// @verif prop=C17 tier=thorough fl=f2 feat=map4 role=map-erdos-renyi/t2 t=3600 mem=30 par=2
+// @verif prop=C17 tier=thorough fl=f2 feat=map4 role=map-erdos-renyi/t2 t=3600 mem=16 par=2
 #[cfg_attr(kani, kani::proof)]
 #[cfg_attr(kani, kani::unwind(10))]
 pub fn c17_map_erdos_renyi_n3_t2() {
@@ -319,7 +319,7 @@ pub fn c17_map_erdos_renyi_n3_t2() {
 }
 
 // AdjacencyMap::random_tournament(3, every seed) stays a tournament with exactly 4 CPU(s).
-// @verif prop=C17 tier=thorough fl=f2 feat=map4 role=map-tournament/t4 t=3600 mem=30 par=4
+// @verif prop=C17 tier=thorough fl=f2 feat=map4 role=map-tournament/t4 t=3600 mem=16 par=4
 #[cfg_attr(kani, kani::proof)]
 #[cfg_attr(kani, kani::unwind(10))]
 pub fn c17_map_tournament_n3_t4() {
